@@ -18,6 +18,8 @@ import Tahoe.Immutable.Uploadable
                                        ciphertext = PT xor KS, joined by `,`; then `;` UEB numbers
     `sharesvia K MAXSEG CHUNK KSHEX PTHEX SIZES` → like `shares`, but the plaintext reaches the encoder through an IUploadable whose
                                        read() returns pieces of the cycling SIZES and through read_encrypted's CHUNK loop
+    `sharesrs K N MAXSEG KSHEX PTHEX` → data sections of ALL N shares under zfec's code as transcribed by C36 (`rs256Codec`), then the
+                                       model's own download from a rotating choice of K shares per segment: `S0,S1,…;PLAINTEXTHEX`
     `updown K N MAXSEG KSHEX PTHEX PICKSEED` → downloads through the model with a systematic K-of-K.. code: `ok` / mismatch -/
 open Tahoe.Drv Tahoe.Immutable Tahoe.Immutable.Sizes Tahoe.Immutable.Layout Tahoe.Immutable.Pipeline
 
@@ -127,6 +129,19 @@ def handle : List String → String
         ",".intercalate (u.shares.map hexOfBytes) ++ ";" ++
           showNatList [u.ueb.size, u.ueb.segmentSize, u.ueb.numSegments, u.ueb.neededShares, u.ueb.codecSize, u.ueb.tailCodecSize]
     | _, _, _, _, _, _ => "bad-op"
+  | ["sharesrs", k, n, maxSeg, kshex, pthex] =>
+    match k.toNat?, n.toNat?, maxSeg.toNat?, bytesOfHex kshex, bytesOfHex pthex with
+    | some k, some n, some maxSeg, some ksb, some pt =>
+      let ksa := ksb.toArray
+      match upload (ksOfArray ksa) rs256Codec () pt k n maxSeg with
+      | .error e => showErr e
+      | .ok u =>
+        let pick : Nat → List Nat := fun s => (List.range k).map (fun j => (j + s) % n)
+        let back := match download (ksOfArray ksa) rs256Codec u pick with
+          | .error e => showErr e
+          | .ok out => hexOfBytes out
+        ",".intercalate (u.shares.map hexOfBytes) ++ ";" ++ back
+    | _, _, _, _, _ => "bad-op"
   | ["updown", k, maxSeg, kshex, pthex, seed] =>
     match k.toNat?, maxSeg.toNat?, bytesOfHex kshex, bytesOfHex pthex, seed.toNat? with
     | some k, some maxSeg, some ksb, some pt, some seed =>
